@@ -237,10 +237,10 @@ int main()
         else if (op == "q") { std::size_t s = 1; is >> s; qsize = s ? s : 1; res = "q"; }
         else if (op == "fail") { long k; is >> k; U.fail_at = U.calls + k; res = "set"; }
         else if (op == "failfrom") { long k; is >> k; U.fail_from = k < 0 ? -1 : U.calls + k; res = "set"; }
-        else if (op == "mv") { t->move_construct(); res = "moved"; }
-        else if (op == "ma") { std::string w; is >> w; U.fail_at = -1; t->move_assign(w == "used"); res = "assigned"; }
+        else if (op == "mv") { t->move_construct(); res = "moved reports=" + leak_list(); }
+        else if (op == "ma") { std::string w; is >> w; U.fail_at = -1; t->move_assign(w == "used"); res = "assigned reports=" + leak_list(); }
         else if (op == "sweep") { sweep("sweep"); res = "swept"; }
-        else if (op == "destroy") { sweep("before-destroy"); t->destroy(); std::printf("destroy = ok |%s | leaks=%ld\n", U.take().c_str(), hc().leak); break; }
+        else if (op == "destroy") { sweep("before-destroy"); t->destroy(); std::printf("destroy = ok |%s | leaks=%ld amounts=%s\n", U.take().c_str(), hc().leak, leak_list().c_str()); break; }
         else { std::printf("? %s\n", line.c_str()); continue; }
         std::string ev = U.take();
         std::printf("%s = %s |%s | %s\n", line.c_str(), res.c_str(), ev.c_str(), t->caps(qsize).c_str());
